@@ -153,6 +153,11 @@ class Program:
             for g in c["global_asm"]:
                 g["crate"] = name
                 self.global_asm.append(g)
+        # normalisation: helpers that are new relative to the pinned baseline are expanded at their call sites (see inline.py)
+        self.expanded_helpers = []
+        if os.environ.get("VERIF_NO_INLINE") != "1":
+            from . import inline
+            self.expanded_helpers = inline.normalise(self)
 
     # ------------------------------------------------------------------
     def fn(self, path):
